@@ -39,7 +39,7 @@ vars == <<recv, via, params, wh, other, acc, done>>
 
 \* "rmember": the member is declared as darling::Result<Generics<..>> - it holds the outcome, the receiver never fails because of it
 Init == /\ recv \in Receivers /\ via \in {"direct", "member", "rmember"}
-        /\ wh \in BOOLEAN
+        /\ wh \in {"none", "preds", "empty"}      \* no where clause, one with a predicate, the bare keyword
         /\ other \in (IF via # "direct" THEN BOOLEAN ELSE {FALSE})     \* a mistake in the receiver's own attribute
         /\ params = <<>> /\ done = FALSE
         /\ acc = [ok |-> TRUE, out |-> <<>>, nerr |-> 0, at |-> 0]
